@@ -295,6 +295,38 @@ def _make_sim_functions(module_name):
     return sim_probe, sim_fault
 
 
+_USER_CHECKS = {}
+
+
+def user_check(variant):
+    """User-written QC functions as a caller may hand them over in Call objects: one factory, one name
+    and module for all of them, different signatures (what two closures or two notebook cells give)."""
+    if variant in _USER_CHECKS:
+        return _USER_CHECKS[variant]
+
+    def record(name, inp, tag, **axes):
+        PROBE_LOG.append({"fn": "user_check", "variant": name, "task": CURRENT["task"], "tag": tag, "inp": anyarray_to_json(inp), **{k: anyarray_to_json(v) for k, v in axes.items()}})
+        seen = sum(w for k, w in (("tinp", 3), ("zinp", 5), ("lat", 7), ("lon", 11)) if axes.get(k) is not None)
+        return probe_flags(inp if not hasattr(inp, "to_numpy") else inp.to_numpy(), int(tag) + seen)
+
+    if variant == "inp":
+        def user_check(inp, tag=0):
+            return record("inp", inp, tag)
+    elif variant == "inp_z":
+        def user_check(inp, zinp=None, tag=0):
+            return record("inp_z", inp, tag, zinp=zinp)
+    elif variant == "inp_t":
+        def user_check(inp, tinp=None, tag=0):
+            return record("inp_t", inp, tag, tinp=tinp)
+    else:
+        def user_check(inp, tinp=None, zinp=None, lat=None, lon=None, tag=0):
+            return record("all", inp, tag, tinp=tinp, zinp=zinp, lat=lat, lon=lon)
+    user_check.__module__ = "ioos_qc.qartod"
+    user_check.__qualname__ = "user_check"
+    _USER_CHECKS[variant] = user_check
+    return user_check
+
+
 _REGISTERED = {}
 
 
